@@ -18,6 +18,21 @@ import sys
 import tempfile
 import traceback
 
+# The tools honour inherited signal dispositions (xz keeps ignoring a signal that was ignored when it started, as POSIX shells
+# arrange for INT/QUIT of background jobs).  A verdict must not depend on how the check itself was launched ("./check ... &",
+# nohup, a CI runner), so every child starts from the default dispositions.
+import signal as _signal
+for _s in (_signal.SIGINT, _signal.SIGQUIT, _signal.SIGTERM, _signal.SIGHUP, _signal.SIGALRM, _signal.SIGUSR1, _signal.SIGUSR2):
+    try:
+        if _signal.getsignal(_s) == _signal.SIG_IGN:
+            _signal.signal(_s, _signal.SIG_DFL)
+    except (OSError, ValueError):
+        pass
+try:
+    _signal.pthread_sigmask(_signal.SIG_SETMASK, set())      # and from an empty signal mask
+except (OSError, ValueError):
+    pass
+
 CLI_DIR = os.environ.get("VERIF_CLI_DIR", "/verif/build/lib-cli")
 SCRATCH = os.environ.get("VERIF_SCRATCH") or tempfile.mkdtemp(prefix="verif-py-", dir="/verif/build")
 SHIM_DIR = os.environ.get("VERIF_SHIM_DIR", "/verif/build/bin")
